@@ -8,6 +8,7 @@ package main
 
 import (
 	"fmt"
+	"os"
 	"sort"
 	"strings"
 	"sync"
@@ -390,6 +391,19 @@ func runAuditFamilies(rep *lib.Report, thorough bool, deadline time.Time, timedO
 		mergeViol(viol, it.viol)
 	}
 
+	if onlyRound7 {
+		abortDone := make(chan string, 1)
+		t0 := time.Now()
+		go func() {
+			n := runAfterAbort(rep, thorough, mu, viol)
+			fmt.Fprintln(os.Stderr, "afterabort", time.Since(t0))
+			abortDone <- n
+		}()
+		n := runLargeMsg(rep, thorough, expired, mu, viol)
+		fmt.Fprintln(os.Stderr, "largemsg", time.Since(t0))
+		return "; " + n + "; " + <-abortDone
+	}
+
 	// emptyframes
 	ecfgs := emptyFrameConfigs(thorough)
 	lib.Parallel(len(ecfgs), func(k int) {
@@ -454,8 +468,18 @@ func runAuditFamilies(rep *lib.Report, thorough bool, deadline time.Time, timedO
 		mergeViol(viol, r.viol)
 	})
 
+	// round 7: afterabort (worker subprocesses, started now, joined before the wire family), largemsg
+	r7Note := ""
+	if !noRound7 {
+		abortDone := make(chan string, 1)
+		go func() { abortDone <- runAfterAbort(rep, thorough, mu, viol) }()
+		r7Note = "; " + runLargeMsg(rep, thorough, expired, mu, viol)
+		r7Note += "; " + <-abortDone
+	}
+
 	// wire
 	wireNote := runWireFamily(rep, thorough, expired, deadline, mu, viol)
+	wireNote += r7Note
 
 	return fmt.Sprintf("; emptyframes: %d configurations (sequences of <=%d messages over sizes {0,1,4,5,6} x flag, identity/gzip, every END_STREAM placement, both directions, grpc/json) x all cut sets with <=1 cut x every non-empty set of insertion points of an empty non-final DATA frame; "+
 		"enchdr: grpc-encoding values %q on %d configurations (gRPC streams judged for panics only, non-gRPC ones fully), plus 'no grpc-encoding header' in the main product for sequences of <=1 message; "+
